@@ -52,6 +52,7 @@ TraceNext ==
        [] ev.e = "round" -> Round(ev) /\ OsSkip
        [] ev.e = "refill" -> Refill(ev) /\ OsSkip
        [] ev.e = "misuse" -> Misuse(ev) /\ OsSkip
+       [] ev.e = "snap" -> Snap(ev) /\ OsSkip
        [] ev.e = "batch" -> BatchAlloc(ev) /\ OsBatch(ev.blocks, ev.wr)
        [] ev.e = "batch_free" -> BatchFree(ev) /\ OsSkip
        [] ev.e = "end" -> Consume /\ ApiSame /\ OsSkip
